@@ -17,7 +17,7 @@ func init() {
 	property("C06",
 		"Static conformance of the hoisting mechanism: (a) each inline arm of the argument loop records one text/movement with the command being built, the index of the argument being built, the owning script name, and leaves one placeholder in the argument; (b) addImplicitTexts / addImplicitMovements patch exactly that argument with a label, on a miss define the label once (same key for lookup and insert, the per-script counter used is the one incremented, content and string type copied from the record, local scope), dedup keys cover content and string type / separator-joined steps; (c) every *impData produced by a callee flows into the value the function returns (or into the program) on every successful path — nothing collected on the way up is lost; (d) label formats; (e) every program text is emitted and hoisted movements are dispatched to the movement emitter. Inline data is handed over on every successful path and merged in source order (C06.c); add/addImplicitData always merge both kinds; token literals are source text (C19.f).",
 		[]string{"Go map equality of the dedup key struct (content, string type)", "scheme argument of DESIGN §4 C06"},
-		"C06.a", "C06.b", "C06.c", "C06.d", "C06.e", "C12.a", "C20.d", "C09.b", "C10.f", "C19.f", "C08.e")
+		"C06.a", "C06.b", "C06.c", "C06.d", "C06.e", "C12.a", "C20.d", "C09.b", "C10.f", "C19.f", "C08.e", "C18.m", "C06.f", "C17.h")
 
 	register(&Rule{ID: "C06.a", Doc: "inline arms record (command, argument index, script, content) and leave a placeholder", Floor: 10, Run: c06a})
 	register(&Rule{ID: "C06.b", Doc: "patch-and-define protocol of addImplicitTexts / addImplicitMovements", Floor: 14, Run: c06b})
@@ -147,6 +147,23 @@ func c06a(c *Ctx) {
 				}
 			}
 			c.Check(ph == 1, key+"/placeholder", pos, "one empty placeholder keeps the argument slot", fmt.Sprintf("%d placeholders appended to the argument parts in this arm, expected 1", ph))
+			if isText {
+				// the text token is the token the parser stood on when it met the text (its
+				// position is what the text's line marker and errors name), with only its
+				// literal replaced by the terminated text
+				okTok := true
+				var leaves []string
+				if fv := fieldValueOf(c, fn, ev, "text", ap); fv != nil {
+					for _, lf := range c.originLeaves(fn, fv) {
+						leaves = append(leaves, lf.term)
+						// (read in the argument loop — `!L…` — not the token the command started with)
+						if !regexpMust(`^\$0\.(curToken|peekToken)!L\d+`).MatchString(lf.term) && !strings.HasPrefix(lf.term, "(*parser.Parser).parseFormatStringOperator@") && !strings.HasPrefix(lf.term, "(*parser.Parser).formatTextTerminator") && !strings.HasPrefix(lf.term, "mu(") {
+							okTok = false
+						}
+					}
+				}
+				c.Check(okTok, key+"/text-token", pos, "the record's token is the token of the text itself", fmt.Sprintf("the record's text token comes from %v, not from the string token the parser stands on: the hoisted text would be located (line marker, errors) at another construct", leaves))
+			}
 			if isMove {
 				c.Check(strings.HasPrefix(f["movements"], "(*parser.Parser).parseMovesOperator@") && strings.HasSuffix(f["movements"], "#0"), key+"/content", pos, "record holds the parsed movement steps", "record's movements are "+f["movements"])
 			}
@@ -1348,4 +1365,18 @@ func wholeCall(term, head string) bool {
 		}
 	}
 	return false
+}
+
+// fieldValueOf: the SSA value stored in field fld of the struct value ev (a composite literal kept
+// in a local and loaded whole) as it is at instruction `at`.
+func fieldValueOf(c *Ctx, fn *ssa.Function, ev ssa.Value, fld string, at ssa.Instruction) ssa.Value {
+	ld, ok := ev.(*ssa.UnOp)
+	if !ok {
+		return nil
+	}
+	a, ok := ld.X.(*ssa.Alloc)
+	if !ok {
+		return nil
+	}
+	return fieldValue(a, fld, ld)
 }
